@@ -69,7 +69,7 @@ func main() {
 	}
 	res := &result{LoadSec: loadS}
 	exit := 0
-	if *jobsFile != "" {
+	runJobs := func() {
 		b, err := os.ReadFile(*jobsFile)
 		if err != nil {
 			fmt.Fprintln(os.Stderr, "ERROR:", err)
@@ -89,8 +89,12 @@ func main() {
 		}
 		ob, _ := json.Marshal(outs)
 		os.WriteFile(*jobsOut, ob, 0o644)
+	}
+	if *jobsFile != "" && *entries == "" {
+		runJobs()
 		return
 	}
+
 	for _, e := range strings.Split(*entries, ",") {
 		cfg := &symgo.Config{
 			Entry: e, MaxDecisions: *maxDec, MaxSteps: *maxSteps, MaxDepth: 400,
@@ -137,6 +141,9 @@ func main() {
 		if len(rep.Violations) > 0 {
 			exit = 1
 		}
+	}
+	if *jobsFile != "" {
+		runJobs()
 	}
 	if *out != "" {
 		b, _ := json.MarshalIndent(res, "", " ")
